@@ -11,7 +11,6 @@ use crate::rng::Rng;
 use arrow::array::{Array, Int64Array};
 use query_engine::distributed::coordinator::{shard_context, splits_of};
 use query_engine::distributed::assign_lpt;
-use query_engine::physical::operators::TableProvider;
 use query_engine::ExecutionContext;
 use serde_json::{json, Value};
 
